@@ -1,9 +1,11 @@
 from ..framework import Spec
 from ..ties_sys import sys_tie, scenario_tie
-from ..scenarios import gen_label_scenario
+from ..scenarios import gen_label_scenario, gen_layout_expr_scenario
 from ..ties_layout import string_tie, zerountil_tie
 
 SPEC = Spec(pid='C11', coq_needs=['Base', 'Data', 'DataProofs', 'Program', 'LayoutTie', 'Properties/C11'],
             ties=[string_tie(), zerountil_tie(), sys_tie('C11'),
                   # the same data expression text under different label scopes
-                  scenario_tie('label_regions', gen_label_scenario, 100, 2000)])
+                  scenario_tie('label_regions', gen_label_scenario, 100, 2000),
+                  # fill counts and .zerountil targets computed from address labels
+                  scenario_tie('layout_exprs', gen_layout_expr_scenario, 100, 2000)])
